@@ -38,6 +38,21 @@ class L13(Lowerer):
             return
         return super().ifstmt(n, ind)
 
+    # -- *reinterpret_cast<T *>(void pointer): the read of the stored result goes through the model's presence check
+    def expr(self, n):
+        n0 = self.skip(n)
+        if n0.get('kind') == 'UnaryOperator' and n0.get('opcode') == '*':
+            sub = self.skip(n0['inner'][0])
+            if sub.get('kind') in ('CXXReinterpretCastExpr', 'CXXStaticCastExpr', 'CStyleCastExpr') and sub.get('castKind') == 'BitCast':
+                try:
+                    t = self.ntype(sub)
+                except Unsupported:
+                    t = None
+                if t == 'cval*':
+                    self.fire('deref:result-pointer')
+                    return '(*cval_at(%s))' % super().expr(sub)
+        return super().expr(n)
+
     def vardecl(self, v, sp):
         if v.get('kind') == 'UsingDirectiveDecl':
             return
@@ -231,6 +246,7 @@ def profile():
         'ctor:TaskPrivate(qdeleter)': ('callee', 'TaskPrivate_ctor'),
         # members of the instantiation being lowered
         'QXmppTask::hasResult/0': lambda lw, n, args: 'QXmppTask_%s_hasResult(%s)' % (lw.inst, ', '.join(args)),
+        'QXmppTask::takeResult/0': lambda lw, n, args: 'QXmppTask_%s_takeResult(%s)' % (lw.inst, ', '.join(args)),
         'QXmppTask::isFinished/0': lambda lw, n, args: 'QXmppTask_%s_isFinished(%s)' % (lw.inst, ', '.join(args)),
         'ctor:QXmppTask(TaskPrivate)': task_ctor,
         'lambda-to-function-pointer': lambda lw, n: '&DELETER_%s' % lw.inst.upper(),
